@@ -18,7 +18,7 @@ VERIF = os.path.dirname(os.path.dirname(os.path.abspath(__file__)))
 class Contract:
     def __init__(self, id, target, props, params=None, requires=(), ensures=(), raises=None, loops=None,
                  returns=None, modular=(), unroll=0, max_paths=3000, note='', setup=None, ghost=None,
-                 as_callee=False, allow_raise=(), known=None, max_recursion=1, decorators=(), regex_env=None, ghost_after=None):
+                 as_callee=False, allow_raise=(), known=None, max_recursion=1, decorators=(), regex_env=None, ghost_after=None, modifies=()):
         self.id = id
         self.target = target
         self.props = list(props)
@@ -40,7 +40,8 @@ class Contract:
         self.decorators = list(decorators)
         self.regex_env = regex_env or {}
         self.ghost_after = ghost_after or {}
-        self.repair_strings = False   # statement-text pattern -> ghost code run after matching statements
+        self.repair_strings = False
+        self.modifies = list(modifies)     # parameters (lists) the function mutates in place: havocked at modular call sites   # statement-text pattern -> ghost code run after matching statements
 
 
 class SpecModule:
@@ -135,11 +136,14 @@ class VerifEnv:
         for k, src in enumerate(c.requires):
             g = I.formula_src(src, fr)
             I.p.oblige(f'{cname}/pre#{k}', 'pre@call', fi.node.lineno, g, note=src, func=fi.ident)
-        if c.returns is None:
+        if c.returns is None and not c.modifies:
             raise Unsupported(f'contract {c.id} has no declared result sort; cannot be used as a callee')
-        res = sorts.build(I, c.returns, 'ret_' + fi.name)
+        res = sorts.build(I, c.returns, 'ret_' + fi.name) if c.returns is not None else None
+        oldf = Frame(fi, fi.module, {k: snapshot(v) for k, v in fr.locals.items()})
+        for mname in c.modifies:
+            lib.fresh_like(I, fr.locals[mname], 'mod_' + mname)      # in place for symbolic lists
         fr.locals['result'] = res
-        fr.locals['__old__'] = Frame(fi, fi.module, dict(fr.locals))
+        fr.locals['__old__'] = oldf
         for name, src in c.ensures:
             I.p.assume(I.formula_src(src, fr))
         return res
@@ -282,6 +286,7 @@ def verify(env, c, thorough=False):
         result = None
         try:
             I.depth = 0
+            I.top_old = old
             result = I.call_func(fv, args, kwargs)
         except PyExc as e:
             raised = e
